@@ -107,6 +107,12 @@ func (e *Emitter) load(st *State, l *Loc) string {
 	case LArr:
 		at := l.Typ.Underlying().(*types.Array)
 		return fmt.Sprintf("(select %s %s)", st.get(e.elemHeap(at.Elem())), l.Base)
+	case LFieldOf:
+		pt := l.Parent.Typ
+		ps, _ := isStruct(pt)
+		var fi int
+		fmt.Sscanf(l.Idx, "%d", &fi)
+		return fmt.Sprintf("(%s.%s %s)", e.sortOf(pt), fieldName(ps.Field(fi), fi), e.load(st, l.Parent))
 	}
 	panic("load: bad loc")
 }
@@ -126,6 +132,22 @@ func (e *Emitter) store(st *State, l *Loc, v string) {
 		at := l.Typ.Underlying().(*types.Array)
 		h := e.elemHeap(at.Elem())
 		st.set(h, fmt.Sprintf("(store %s %s %s)", st.get(h), l.Base, v))
+	case LFieldOf:
+		pt := l.Parent.Typ
+		ps, _ := isStruct(pt)
+		var fi int
+		fmt.Sscanf(l.Idx, "%d", &fi)
+		name := e.sortOf(pt)
+		cur := e.load(st, l.Parent)
+		var fs []string
+		for i := 0; i < ps.NumFields(); i++ {
+			if i == fi {
+				fs = append(fs, v)
+			} else {
+				fs = append(fs, fmt.Sprintf("(%s.%s %s)", name, fieldName(ps.Field(i), i), cur))
+			}
+		}
+		e.store(st, l.Parent, fmt.Sprintf("(mk_%s %s)", name, strings.Join(fs, " ")))
 	default:
 		panic("store: bad loc")
 	}
